@@ -118,7 +118,7 @@ class World:
   def project(self):
     uni = self.uni
     n = uni.n
-    S = {"parent": [], "kids": [], "owner": [], "regref": [], "first": [], "lastc": [], "next": [], "prev": [], "len": [],
+    S = {"parent": [], "kids": [], "owner": [], "regref": [], "first": [], "lastc": [], "next": [], "prev": [], "len": [], "iter": [], "byidx": [],
          "styles": [], "steps": []}
     for e in self.elems:
       S["parent"].append(self.ix(e.parent()))
@@ -135,6 +135,20 @@ class World:
       S["next"].append(self.ix(e.next_sibling()))
       S["prev"].append(self.ix(e.previous_sibling()))
       S["len"].append(len(e) if guard <= n + 1 else -1)
+      # the same children as iteration and as indexing give them (-1: the access raised or never ended)
+      try:
+        it = []
+        for c in e:
+          it.append(self.ix(c))
+          if len(it) > n + 1:
+            break
+        S["iter"].append(it)
+      except Exception:  # pylint: disable=broad-except
+        S["iter"].append([-1])
+      try:
+        S["byidx"].append([self.ix(e[i]) for i in range(min(len(e), n + 1))])
+      except Exception:  # pylint: disable=broad-except
+        S["byidx"].append([-1])
       d = e.get_doc()
       S["owner"].append(0 if d is None else self.docindex.get(id(d), -1))
       S["regref"].append(self.ix(e.get_region()))
